@@ -114,6 +114,7 @@ var Mutants = map[string][]Mutant{
 		{"Windings looks at the whole path only", "path.go", `\tfor _, pi := range p\.Split\(\) \{\n\t\tzs := pi\.RayIntersections\(x, y\)`, "\tfor _, pi := range []*Path{p} {\n\t\tzs := pi.RayIntersections(x, y)", "E9.subpaths"},
 	},
 	"C07": {
+		{"translation of the inverse uses the wrong cofactor", "util.go", `-\(-m\[1\]\[0\]\*m\[0\]\[2\] \+ m\[0\]\[0\]\*m\[1\]\[2\]\) / det,`, "-(-m[0][1]*m[0][2] + m[0][0]*m[1][2]) / det,", "E11.matrix-inverse"},
 		{"inverse of the arc frame composed as m⁻¹·R(−φ)", "path.go", `(?s)T := m\.Rotate\(phi \* 180\.0 / math\.Pi\)\n\t\t\tinvT := T\.Inv\(\)`, "invT := m.Inv().Rotate(-phi * 180.0 / math.Pi)", "E11.conic-frame"},
 		{"inverse divided by the absolute determinant", "util.go", `\tdet := m\.Det\(\)\n\tif Equal\(det, 0\.0\) \{\n\t\tpanic\("determinant of affine`, "\tdet := math.Abs(m.Det())\n\tif det <= Epsilon {\n\t\tpanic(\"determinant of affine", "E11.matrix-inverse"},
 		{"Decompose merges the rotations for every similarity", "util.go", `\tif Equal\(sx, 1\.0\) && Equal\(sy, 1\.0\) \{\n\t\ttheta \+= phi`, "\tif m.IsSimilarity() {\n\t\ttheta += phi", "E11.rotation-merge"},
@@ -134,6 +135,7 @@ var Mutants = map[string][]Mutant{
 		{"Rect.Add max reads the low field", "util.go", `x1 := math\.Max\(r\.X1, q\.X1\)`, `x1 := math.Max(r.X1, q.X0)`, "E3.mirror"},
 	},
 	"C09": {
+		{"remainder of a wide elliptical arc integrated from zero", "path_util.go", `(\treturn gaussLegendre5\(speed, theta1, theta2\)\n)`, "\tif dtheta := theta2 - theta1; math.Pi < dtheta {\n\t\treturn gaussLegendre5(speed, 0.0, math.Pi) + gaussLegendre5(speed, 0.0, dtheta-math.Pi)\n\t}\n${1}", "E11.quadrature-covers-arc"},
 		{"collinear cubic measured as its chord", "path_util.go", `(func cubicBezierLength\(p0, p1, p2, p3 Point\) float64 \{\n)`, "${1}\tif chord := p3.Sub(p0); !p0.Equals(p3) && Equal(chord.PerpDot(p1.Sub(p0)), 0.0) && Equal(chord.PerpDot(p2.Sub(p0)), 0.0) {\n\t\treturn chord.Length()\n\t}\n", "E9.chord-shortcut"},
 		{"circular arc length taken before the angles are ordered", "path_util.go", `func ellipseLength\(rx, ry, theta1, theta2 float64\) float64 \{\n`, "func ellipseLength(rx, ry, theta1, theta2 float64) float64 {\n\tif rx == ry {\n\t\treturn rx * (theta2 - theta1)\n\t}\n", "E11.normalise-first"},
 		{"Reverse skips segments that end where they start", "path.go", `(\t\t\tend = Point\{p\.d\[i-3\], p\.d\[i-2\]\}\n\t\t\}\n)(\n\t\tswitch cmd \{\n\t\tcase MoveToCmd:\n\t\t\tif closed \{)`, "${1}\t\tif cmd != MoveToCmd && cmd != CloseCmd && start.Equals(end) {\n\t\t\tcontinue\n\t\t}\n${2}", "E2.record-preserved"},
@@ -176,6 +178,7 @@ var Mutants = map[string][]Mutant{
 		{"number table larger than the buffer", "path.go", `\t\t'A': 7,\n`, "\t\t'A': 8,\n", "E4.table-bound"},
 	},
 	"C12": {
+		{"gradient padded only up to zero", "colors.go", `\} else if t <= stops\[0\]\.Offset \|\| len\(stops\) == 1 \{`, "} else if t <= 0.0 || len(stops) == 1 {", "E11.gradient-pad"},
 		{"PostScript writer transforms the caller's path in place", "renderers/ps/ps.go", `r\.w\.Write\(\[\]byte\(path\.Copy\(\)\.Transform\(m\)\.ToPS\(\)\)\)`, "r.w.Write([]byte(path.Transform(m).ToPS()))", "E1.render-path-pure"},
 		{"SVG stroke outline takes the path's fill rule", "renderers/svg/svg.go", `\t\t// the outline of a stroke overlaps itself, it is always filled non-zero \(the default\)\n`, "\t\tif style.FillRule == canvas.EvenOdd {\n\t\t\tfmt.Fprintf(r.w, `\" fill-rule=\"evenodd`)\n\t\t}\n", "E6.outline-nonzero"},
 		{"PDF stroke outline filled even-odd", "renderers/pdf/pdf.go", `(?s)(r\.w\.Write\(\[\]byte\(path\.Transform\(m\)\.ToPDF\(\)\)\)\n\t\t)r\.w\.Write\(\[\]byte\(" f"\)\)`, "${1}r.w.Write([]byte(\" f*\"))", "E6.outline-nonzero"},
@@ -199,6 +202,7 @@ var Mutants = map[string][]Mutant{
 		{"PS eofill outside its guard", "renderers/ps/ps.go", `r\.w\.Write\(\[\]byte\(" fill"\)\)\n\t\t\}\n\t\tif style\.HasStroke\(\) && !strokeUnsupported \{\n\t\t\tr\.w\.Write\(\[\]byte\(" grestore"\)\)`, "r.w.Write([]byte(\" eofill\"))\n\t\t}\n\t\tif style.HasStroke() && !strokeUnsupported {\n\t\t\tr.w.Write([]byte(\" grestore\"))", "E6.enum"},
 	},
 	"C13": {
+		{"short Flate streams written raw", "renderers/pdf/writer.go", `(\t\t\tcase pdfFilterFlate:\n)`, "${1}\t\t\t\tif len(b) < 16 {\n\t\t\t\t\tbreak\n\t\t\t\t}\n", "E5.filter-applied"},
 		{"metadata written raw up to Latin-1", "renderers/pdf/writer.go", `if 0x80 <= r \{\n\t\t\t\tascii = false`, "if 0xFF < r {\n\t\t\t\tascii = false", "E5.text-string-encoding"},
 		{"negative dash phase made positive by a possibly zero step", "renderers/pdf/writer.go", `\t\tif 0\.0 < totalLength \{\n\t\t\tfor dashPhase < 0\.0 \{\n\t\t\t\tdashPhase \+= totalLength\n\t\t\t\}\n\t\t\} else \{\n[^\n]*\n\t\t\}\n`, "\t\tfor dashPhase < 0.0 {\n\t\t\tdashPhase += totalLength\n\t\t}\n", "E4.additive-loop"},
 		{"DCT images always declared DeviceRGB", "renderers/pdf/writer.go", `\t\tif _, ok := img\.\(\*image\.Gray\); ok \{\n\t\t\tcolorSpace = pdfName\("DeviceGray"\)[^\n]*\n\t\t\}\n`, "", "E5.jpeg-colorspace"},
@@ -221,6 +225,7 @@ var Mutants = map[string][]Mutant{
 		{"stroke keeps even-odd star", "renderers/pdf/pdf.go", `\t\t\tif closed \{\n\t\t\t\tr\.w\.Write\(\[\]byte\(" s"\)\)\n\t\t\t\} else \{\n\t\t\t\tr\.w\.Write\(\[\]byte\(" S"\)\)\n\t\t\t\}\n\t\t\} else if style\.HasFill\(\) && style\.HasStroke\(\) \{`, "\t\t\tif closed {\n\t\t\t\tr.w.Write([]byte(\" s\"))\n\t\t\t} else {\n\t\t\t\tr.w.Write([]byte(\" S\"))\n\t\t\t}\n\t\t\tif style.FillRule == canvas.EvenOdd {\n\t\t\t\tr.w.Write([]byte(\"*\"))\n\t\t\t}\n\t\t} else if style.HasFill() && style.HasStroke() {", "E5.grammar"},
 	},
 	"C14": {
+		{"colour space conversion loops to the width of the image", "renderers/rasterizer/util.go", `(?s)(if dstRGBA, ok := dst\.\(\*image\.RGBA\); ok \{\n\t\tfor j := b\.Min\.Y; j < b\.Max\.Y; j\+\+ \{\n\t\t\t)for i := b\.Min\.X; i < b\.Max\.X; i\+\+ \{`, "${1}for i := 0; i < b.Dx(); i++ {", "E11.pixel-loop-bounds"},
 		{"hatch tile scanned with the path's fill rule", "renderers/rasterizer/rasterizer.go", `\t\t\t\tr\.scanner\.SetWinding\(true\) // the tile is the outline[^\n]*\n`, "", "E6.winding-mode"},
 		{"early-out on bounds that a dashed stroke's outline replaced", "renderers/rasterizer/rasterizer.go", `(?s)\t\tif style\.HasFill\(\) \{\n\t\t\tbounds = bounds\.Add\(stroke\.FastBounds\(\)\)\n\t\t\} else \{\n\t\t\tbounds = stroke\.FastBounds\(\)\n\t\t\}\n(.*?)(\tif style\.HasFill\(\) \{\n\t\tr\.scanner\.SetWinding)`, "\t\tbounds = stroke.FastBounds()\n${1}\tif bounds.X1*dpmm <= 0.0 || float64(size.X) <= bounds.X0*dpmm {\n\t\treturn\n\t}\n${2}", "E6.skip-bounds-cover"},
 		{"rasterizer transforms the path before stroking it", "renderers/rasterizer/rasterizer.go", `\t\tstroke = path\n\t\tif 0 < len\(style\.Dashes\) \{`, "\t\tstroke = path.Copy().Transform(m)\n\t\tif 0 < len(style.Dashes) {", "E11.stroke-before-view"},
@@ -239,6 +244,7 @@ var Mutants = map[string][]Mutant{
 		{"rasterizer ignores the fill rule", "renderers/rasterizer/rasterizer.go", `\t\tr\.scanner\.SetWinding\(style\.FillRule != canvas\.EvenOdd\)\n`, ``, "E6.style-field"},
 	},
 	"C15": {
+		{"coordinate-system matrix cached when the system is set", "canvas.go", `(?s)(\tcoordSystem CoordSystem\n\})(.*?)func \(c \*Context\) CoordSystemView\(\) Matrix \{\n\t// a function since renderer's width/height may change\n\tswitch c\.coordSystem \{(.*?\n\}\n)(.*?)(\tc\.coordSystem = coordSystem\n)`, "\tcoordSystem CoordSystem\n\tsystemView  Matrix\n}${2}func (c *Context) CoordSystemView() Matrix {\n\treturn c.systemView\n}\n\nfunc (c *Context) coordSystemMatrix(coordSystem CoordSystem) Matrix {\n\tswitch coordSystem {${3}${4}${5}\tc.systemView = c.coordSystemMatrix(coordSystem)\n", "E11.draw-matrix"},
 		{"Stroke returns before resetting the path when there is no stroke", "canvas.go", `(func \(c \*Context\) Stroke\(\) \{\n)`, "${1}\tif !c.Style.HasStroke() {\n\t\treturn\n\t}\n", "E11.ctx-restore"},
 		{"Pop without its empty-stack guard", "canvas.go", `(?s)(func \(c \*Context\) Pop\(\) \{\n)\tif len\(c\.stack\) == 0 \{\n\t\treturn\n\t\}\n`, "${1}", "E11.ctx-stack"},
 		{"SetDashes keeps the caller's array", "canvas.go", `c\.Style\.Dashes = append\(\[\]float64\{\}, dashes\.\.\.\)[^\n]*\n`, "c.Style.Dashes = dashes\n", "E11.setter-copies-slice"},
